@@ -6,13 +6,16 @@ INSTANCE Layout
 File == JsonDeserialize(IOEnv.TRACE_FILE)
 CONSTANT EnabledDevs
 
-\* r = [tree : seq of nodes, at, depth, got : seq of ids, slash : BOOLEAN, status, frontend, prefix]
+\* r = [tree : seq of nodes, at, depth, got : seq of ids, slash : BOOLEAN, badprops : seq of
+\*      property names, status, frontend, prefix]
 Tree(r) == {r.tree[k] : k \in DOMAIN r.tree}
 Judge(r, i) ==
     LET t == Tree(r)
         cl == IF r.status # 207 THEN {"propfind-refused"}
               ELSE Clauses(t, r.at, r.depth, r.got)
-                   \cup (IF ~r.slash THEN {"collection-href-without-trailing-slash"} ELSE {}) IN
+                   \cup (IF ~r.slash THEN {"collection-href-without-trailing-slash"} ELSE {})
+                   \* hrefs inside property values (owner, principal, home sets ...) dereference too
+                   \cup {"href-in-property-" \o r.badprops[k] \o "-does-not-resolve" : k \in DOMAIN r.badprops} IN
     {[k |-> IF d \in EnabledDevs THEN "known" ELSE "viol", i |-> i, dev |-> d] :
         d \in {"layout:" \o c \o ":in-" \o Node(t, r.at).kind \o ":depth" \o ToString(r.depth) : c \in cl}}
 
